@@ -160,7 +160,8 @@ def parseReq (s : String) : Option (Option Bytes × Bytes) :=
   | [t, sni, host] => do
     let sn ← hexField sni
     let h ← hexField host
-    if t == "1" then pure (some sn, h) else if t == "0" then pure (none, h) else none
+    -- "2": r.TLS is nil but the request's connection reports the TLS state; ServeHTTP fills r.TLS in first
+    if t == "1" || t == "2" then pure (some sn, h) else if t == "0" then pure (none, h) else none
   | _ => none
 
 def showServed : Served → String
